@@ -66,7 +66,14 @@ type SpecDef struct {
 	Body   *SpecNode
 }
 
+type GhostMap struct {
+	Name string
+	Key  string
+	Val  string
+}
+
 type ContractSet struct {
+	GhostMaps map[string]*GhostMap
 	Defs   map[string]*SpecDef
 	ByKey  map[string]*Contract
 	Ghosts []GhostDecl
@@ -76,7 +83,7 @@ type ContractSet struct {
 }
 
 func NewContractSet() *ContractSet {
-	return &ContractSet{ByKey: map[string]*Contract{}, Preds: map[string]*PredDecl{}, Defs: map[string]*SpecDef{}}
+	return &ContractSet{ByKey: map[string]*Contract{}, Preds: map[string]*PredDecl{}, Defs: map[string]*SpecDef{}, GhostMaps: map[string]*GhostMap{}}
 }
 
 var clauseRe = regexp.MustCompile(`^(spawn\s+|site\s+\S+\s+)?(requires|ensures|assigns|ghostset|nopanic|noreturn|pure|inline|loop\s+\d+\s+invariant)(\[[A-Za-z0-9_, ]*\])?\s*(.*)$`)
@@ -125,6 +132,14 @@ func (cs *ContractSet) parseFile(path string, pkgPath string) {
 		}
 		t := strings.TrimSpace(line)
 		if t == "" {
+			continue
+		}
+		if strings.HasPrefix(t, "ghostmap ") {
+			finishClause()
+			fs := strings.Fields(t)
+			if len(fs) >= 4 {
+				cs.GhostMaps[fs[1]] = &GhostMap{fs[1], fs[2], fs[3]}
+			}
 			continue
 		}
 		if strings.HasPrefix(t, "ghost ") {
@@ -212,7 +227,7 @@ func (cs *ContractSet) finishClause(c *Clause) {
 	switch c.Kind {
 	case "ghostset":
 		k := strings.Index(c.Text, "=")
-		if k < 0 || !strings.HasPrefix(strings.TrimSpace(c.Text), "#") {
+		if k < 0 || !(strings.HasPrefix(strings.TrimSpace(c.Text), "#") || strings.Contains(c.Text[:max(k, 0)], "(")) {
 			cs.Errors = append(cs.Errors, fmt.Sprintf("%s:%d: ghostset needs '#name = expr'", c.File, c.Line))
 			return
 		}
